@@ -419,6 +419,9 @@ def _exec_triples(run, case):
                       f"(first differing: {sorted(set(got_canon) ^ set(exp_canon))[:2]})")
     run.check(all(_binary_ok(g, names) for g in got), ("C20",), "C20.all-trees-shape",
               lambda: "all_trees_from_triples returned a non-binary tree or wrong leaf set")
+    problem = _well_formed(got)
+    run.check(problem is None, ("C20",), "C20.all-trees-malformed",
+              lambda: f"all_trees_from_triples({names}, {subset}): {problem}")
     ORACLE.begin(o[3])
     one = trees.tree_from_triples(list(names), list(subset))
     if k >= 1:
@@ -433,11 +436,39 @@ def _exec_triples(run, case):
                   ("C20",), "C20.one-tree-displays",
                   lambda: f"tree_from_triples({names}, {subset}) = {one.write(format=9)} does "
                           f"not display every triple")
+        problem1 = _well_formed([one])
+        run.check(problem1 is None, ("C20",), "C20.one-tree-malformed",
+                  lambda: f"tree_from_triples({names}, {subset}): {problem1}")
+    # deferred inspection: what was handed out earlier is still what it was
+    again = sorted(canon_clades(ete_clades(g)) for g in got)
+    run.check(again == got_canon and _well_formed(got) is None, ("C20",),
+              "C20.all-trees-changed-later",
+              lambda: "trees returned by all_trees_from_triples changed after a later call")
     if not expected:
         run.probe("inconsistent_triples")
     if len(expected) > 1:
         run.probe("several_trees")
     run.event("alltrees", len(got_canon), one is None)
+
+
+def _well_formed(results):
+    """Every returned tree is a tree of its own: each child's parent link points back to the
+    node it hangs from, and no node object occurs in two results (a shared subtree looks
+    right when written from the root, and breaks when walked from the leaves or edited)."""
+    seen = {}
+    for i, tree in enumerate(results):
+        if tree.up is not None:
+            return f"result {i}: the root has a parent"
+        for node in tree.traverse():
+            if id(node) in seen:
+                return f"results {seen[id(node)]} and {i} share a node object"
+            seen[id(node)] = i
+            for child in node.children:
+                if child.up is not node:
+                    return (f"result {i}: a child of the node above "
+                            f"{sorted(leaf.name for leaf in node.get_leaves())} has its parent "
+                            f"link pointing elsewhere")
+    return None
 
 
 def _binary_ok(tree, names):
@@ -486,6 +517,9 @@ def _exec_super(run, case):
     run.check(got_canon == exp_canon, ("C20",), "C20.all-supertrees",
               lambda: f"all_supertrees of {[newick(p) for p in parts]} under order {o[1]}: "
                       f"{len(got_canon)} trees, expected {len(exp_canon)}")
+    problem = _well_formed(list(allsup)) or _well_formed([sup])
+    run.check(problem is None, ("C20",), "C20.supertrees-malformed",
+              lambda: f"supertrees of {[newick(p) for p in parts]}: {problem}")
     if [x.write(format=9) for x in inputs] != before:
         run.probe("tree_mutated_by_call")
     if len(parts) > 1:
